@@ -356,7 +356,7 @@ func c06Check(strat workload.Strategy, pathAware bool, r0 map[string]interface{}
 				}
 				twinSeen[code] = true
 			}
-			if f.Kind == workload.FaultGGQLError {
+			if f.Kind == workload.FaultGGQLError || f.Kind == workload.FaultWrapGGQL {
 				ext, _ := m["extensions"].(map[string]interface{})
 				if ext == nil || ext["code"] != "E"+strconv.Itoa(f.N) {
 					return "extensions_lost", fmt.Sprintf("failure at %s carried extensions {code: E%d}, the entry has %v", f.Path, f.N, m["extensions"])
@@ -445,7 +445,7 @@ func stripFrag(p []interface{}) []interface{} {
 }
 
 var c06Kinds = []string{workload.FaultError, workload.FaultGGQLError, workload.FaultErrorGroup, workload.FaultBadLeaf,
-	workload.FaultGroupExt, workload.FaultNestedGrp, workload.FaultBadList, workload.FaultTwinGroup}
+	workload.FaultGroupExt, workload.FaultNestedGrp, workload.FaultBadList, workload.FaultTwinGroup, workload.FaultWrapGroup, workload.FaultWrapGGQL}
 
 func (c C06) Run(t *tape.Tape, opt core.RunOpt) (res core.Result) {
 	strat := []workload.Strategy{workload.StratInterface, workload.StratInterface, workload.StratAnyWrapped, workload.StratAnyWrapped, workload.StratReflect, workload.StratAny}[t.Draw(6)]
